@@ -278,10 +278,16 @@ package tengo
 //@   ensures silent{C14}: v.err == nil ==> result == nil
 //@   loop 0 invariant chain{C14}: err != nil && spec.unwraps(err, v.err) && v.err == pre(v.err)
 
+// SourcePos: the position recorded for the nearest instruction offset at or before ip
 //@ func (*CompiledFunction).SourcePos
 //@   props C14
 //@   assigns nothing
+//@   let ip0 = ip
+//@   ensures exact{C14}: 0 <= ip0 && haskey(o.SourceMap, ip0) ==> result == o.SourceMap[ip0]
+//@   ensures previous{C14}: 0 < ip0 && !haskey(o.SourceMap, ip0) && haskey(o.SourceMap, ip0 - 1) ==> result == o.SourceMap[ip0-1]
+//@   ensures before_start{C14}: ip0 < 0 ==> result == parser.NoPos
 //@   loop 0 assigns nothing
+//@   loop 0 invariant scanned{C14}: ip <= ip0 && (forall k int :: ip < k && k <= ip0 ==> !haskey(o.SourceMap, k))
 
 //@ func (*VM).run
 //@   props C06 C02
